@@ -848,7 +848,28 @@ def r06_22(chk):
     chk.floor("R06.22", 8, "functions behind PARSERS")
 
 
+def r06_23(chk):
+    chk.rule("R06.23", "the order a writer falls back to is a list: in the format package nothing is bound from the result of an in-place list method (`x = <list>.sort()` / `.reverse()` is None) -- _AlignmentFormatter.set_align_info fell back to `list(keys).sort()` when the caller's order has the wrong length, so every block writer then iterated None")
+    n = 0
+    for m in chk.repo.all_modules():
+        if not m.rel.replace("src/cogent3/", "").startswith("format/"):
+            continue
+        for q, fn in m.all_functions():
+            for st in walk_no_nested(fn):
+                if isinstance(st, ast.Assign) and isinstance(st.value, ast.Call) and isinstance(st.value.func, ast.Attribute) and st.value.func.attr in ("sort", "reverse") and not st.value.args:
+                    n += 1
+                    chk.violation("R06.23", key(m, q, f"{norm(st.targets[0])} bound from an in-place method"), m.loc(st), f"`{norm(st)[:70]}` binds None: the writer's fall-back order is unusable (TypeError when the sequences are written)")
+    m = chk.repo.module("format/util.py")
+    fn = m.func("_AlignmentFormatter.set_align_info")
+    sets = [st for st in walk_no_nested(fn) if isinstance(st, ast.Assign) and norm(st.targets[0]) == "self.align_order"]
+    for st in sets:
+        if not (isinstance(st.value, ast.Call) and isinstance(st.value.func, ast.Attribute) and st.value.func.attr in ("sort", "reverse")):
+            chk.ok("R06.23", key(m, "_AlignmentFormatter.set_align_info", f"align_order = {norm(st.value)[:40]}"), m.loc(st), "a list")
+    chk.floor("R06.23", 1, "set_align_info")
+
+
 def run(chk):
+    r06_23(chk)
     r06_22(chk)
     r06_21(chk)
     r06_20(chk)
